@@ -82,7 +82,20 @@ def corr(ctx, prop, n, compare, seed_offset=0, extra=(), label=None):
             if sig.startswith("~"):
                 ctx.brk(f"{label}:{sig[1:]}", desc, {"case": case, "impl": i, "model": m})
             else:
-                ctx.violation(f"{label}:{sig}", desc, {"case": case, "impl": i, "model": m})
+                payload = {"case": case, "impl": i, "model": m}
+                if case.get("op") in ("c01", "c02") and not getattr(ctx, "_minimised", False):
+                    # shrink the first failing case of the run: smaller rule trees / paths / graphs with the same kind of failure
+                    ctx._minimised = True
+                    try:
+                        import minimise
+                        res = minimise.minimise(case, compare)
+                        if res:
+                            payload["minimised"] = {"case": res[0], "impl": res[1], "model": res[2], "evaluations": res[3]}
+                            r2 = compare(res[0], res[1], res[2])
+                            desc = desc + " | minimised: " + (r2[1] if r2 and r2 is not True else "")
+                    except Exception as ex:
+                        payload["minimiser_error"] = str(ex)
+                ctx.violation(f"{label}:{sig}", desc, payload)
     ctx.coverage.setdefault("streams", {})[label] = dict(stats, distinct=len(distinct), nontrivial=nontrivial)
     ctx.coverage["evaluations"] = ctx.coverage.get("evaluations", 0) + len(lines)
     ctx.coverage["distinct_nontrivial"] = ctx.coverage.get("distinct_nontrivial", 0) + nontrivial
